@@ -149,6 +149,8 @@ def build(n, edges, names, validate=True):
         g.add_node(names[i])
     for a, b in edges:
         g.add_edge(names[a], names[b], validate=validate)
+    if validate:
+        gen.stress(g, ('c18', n, tuple(edges), tuple(names[:n])))
     return g
 
 
